@@ -175,9 +175,25 @@ def check_typed(spec, evs, variant):
     except Exception as e:
         return [core.v_exc(PROP, "typed-input", "fill of %s values raised" % variant, e, args)]
     if d:
-        return [core.v_diff(PROP, "typed-input", "filling %s values differs from filling equal floats" % variant, d,
-                            h.toJson(), args)]
+        what = "filling %s values differs from filling equal floats" % variant
+        if variant == "numpy32" and f32_collision(spec):
+            # NumPy compares a float32 scalar with a Python float at single precision, so edges that differ by less
+            # than float32 resolution are one edge to such a datum (listed finding; every other tree keeps `what`)
+            what = "numpy32 datum compared at single precision with edges that float32 cannot tell apart"
+        return [core.v_diff(PROP, "typed-input", what, d, h.toJson(), args)]
     return []
+
+
+def f32_collision(spec):
+    """Does some binning node have two different boundaries with the same float32 rounding?"""
+    import numpy as np
+
+    for _, _, n in S.node_ids(spec):
+        if n["t"] in S.BINNING:
+            e = sorted(set(A._edges(n)))
+            if any(a != b and np.float32(a) == np.float32(b) for a, b in zip(e[:-1], e[1:])):
+                return True
+    return False
 
 
 def plans(spec, tier):
